@@ -34,7 +34,7 @@ def c19_contract(cfg):
     name, line = cfg["contract"], cfg["line"]
     env = dict(os.environ, PYTHONPATH=f"{VERIF}:{REPO}", PYTHONWARNINGS="ignore")
     cmd = [str(VERIF / ".venv" / "bin" / "crosshair"), "check", "--report_all", "--per_condition_timeout", str(cfg["per_condition_timeout"]),
-           "--per_path_timeout", str(cfg.get("per_path_timeout", 30)), f"{HARNESS}:{line}"]
+           "--per_path_timeout", str(cfg.get("per_path_timeout", 30)), f"{cfg.get('harness', HARNESS)}:{line}"]
     t0 = time.time()
     try:
         p = subprocess.run(cmd, env=env, capture_output=True, text=True, timeout=cfg["per_condition_timeout"] + 120)
@@ -43,6 +43,8 @@ def c19_contract(cfg):
         out = "TIMEOUT " + str(e)
     dt = time.time() - t0
     sig = f"contract:{name}"
+    if cfg.get("harness"):
+        sig += ":wide"
     rec.sample = {"config": cfg, "crosshair_output": out.strip()[-400:], "seconds": round(dt, 1)}
     rec.nontrivial = True
     if "Confirmed over all paths" in out:
@@ -132,10 +134,36 @@ def _mutual():
     return a[1]
 
 
+def _write_wide():
+    """Thorough tier: the same contracts over boxes widened by one in every direction (generated file, not committed)."""
+    src = HARNESS.read_text()
+
+    def widen(m):
+        lo, var, hi = int(m.group(1)), m.group(2), int(m.group(3))
+        if var == "step":
+            return f"{lo} <= {var} <= {hi + 1}"
+        if var in ("use_list", "extra"):
+            return m.group(0)
+        return f"{lo - 1} <= {var} <= {hi + 1}"
+
+    out = []
+    for ln in src.splitlines():
+        if ln.strip().startswith("pre:"):
+            ln = re.sub(r"(-?\d+) <= (\w+) <= (-?\d+)", widen, ln)
+        out.append(ln)
+    wide = HARNESS.with_name("_indexing_wide.py")
+    wide.write_text("\n".join(out) + "\n")
+    return wide
+
+
 def configs(tier):
     jobs = []
-    tmo = 240 if tier == "quick" else 900
+    tmo = 240 if tier == "quick" else 600
     for name, line in _contracts():
         jobs.append(("vf.props.indexing", "c19_contract", dict(contract=name, line=line, per_condition_timeout=tmo, _timeout_s=tmo + 180)))
+    if tier == "thorough":
+        wide = _write_wide()
+        for name, line in _contracts():
+            jobs.append(("vf.props.indexing", "c19_contract", dict(contract=name, line=line, harness=str(wide), per_condition_timeout=1500, per_path_timeout=60, _timeout_s=1700, _cost=10)))
     jobs.append(("vf.props.indexing", "c19_recursion", dict(recursion=True)))
     return jobs
